@@ -384,6 +384,11 @@ def build(term, ctx, path="r", batch=None):
         if mode == "sym":  # same weights left and right -> PSD when base is
             ri, rv = li, lv
             n = m
+        if mode == "sameidx":  # the same interpolation indices on both sides but different weights (e.g. interp @ Diag): memos keyed
+            ri = li.clone()    # by the indices alone would confuse the two sparse interpolation matrices
+            rv = leaf(ctx, path + ".rv2", "int", (m, k), ib)
+            ctx.leaves[path + ".ri"] = ri
+            n = m
         Wl = interp_matrix(li, lv, nb_r)
         Wr = interp_matrix(ri, rv, nb_c)
         op = O.InterpolatedLinearOperator(inner.op, li, lv, ri, rv)
@@ -531,6 +536,7 @@ def catalogue(n=3, include_rect=True):
         "Interp": ["Interp", {"mode": "general"}, P], "InterpSym": ["Interp", {"mode": "sym", "m": n + 1}, P],
         "InterpId": ["Interp", {"mode": "identity"}, P], "InterpDup": ["Interp", {"mode": "dup"}, D(n)],
         # one interpolation point per row with weights != 1 (a weighted selection): the degenerate width of the interpolation stencil
+        "InterpSameIdx": ["Interp", {"mode": "sameidx", "m": n + 1}, P],
         "InterpK1": ["Interp", {"mode": "general", "k": 1}, P], "InterpSymK1": ["Interp", {"mode": "sym", "m": n + 1, "k": 1}, P],
         "InterpZeros": ["Interp", {"mode": "zeros"}, D(n)],
         "Masked": ["Masked", {"same": True}, D(n + 1, kind="psd")], "MaskedRect": ["Masked", {"same": False, "rdrop": 0, "cdrop": 1}, D(n + 1)],
